@@ -51,7 +51,7 @@ func init() {
 const (
 	c05NGen      = 5 // generations / switch paths 0..4
 	c05BadGen    = 4 // lacks the validation record
-	c05StepLimit = 2 * time.Second
+	c05StepLimit = 10 * time.Second // 2 s is not enough for a RocksDB open on a loaded machine
 )
 
 var c05ValidationKey = []byte("\000\000\005valid\002ex\003com\000")
@@ -66,6 +66,8 @@ func c05lines(g int) []string {
 		fmt.Sprintf("&sub.ex.com,,ns%d.sub.ex.com,300", g),
 		fmt.Sprintf("Mex.com,m%d", g),
 		fmt.Sprintf("8ex.com,m%d", g),
+		fmt.Sprintf("M*.ex.com,m%d", g),
+		fmt.Sprintf("8*.ex.com,m%d", g),
 	}
 	for k := 0; k < c05NGen; k++ {
 		l = append(l,
@@ -98,10 +100,6 @@ func c05work(backend string, p int) string {
 }
 
 func c05setup() {
-	if os.Getenv("C05_TIME") != "" {
-		t0 := time.Now()
-		defer func() { fmt.Fprintf(os.Stderr, "setup %v\n", time.Since(t0)) }()
-	}
 	var err error
 	c05root, err = os.MkdirTemp("", "c05-")
 	if err != nil {
@@ -232,7 +230,7 @@ func c05yield(point string) {
 	if point == "reload.locked" {
 		// the worker holds reloadMu here: nobody else reads the timeout
 		if w.timeout {
-			s.h.SetReloadTimeoutForVerif(time.Nanosecond)
+			s.h.SetReloadTimeoutForVerif(-time.Second) // already expired when the context is created
 		} else {
 			s.h.SetReloadTimeoutForVerif(10 * time.Second)
 		}
@@ -439,10 +437,6 @@ func c05parse(line string) *c05case {
 }
 
 func c05run(line string) (impl, verdict string) {
-	if os.Getenv("C05_TIME") != "" {
-		t0 := time.Now()
-		defer func() { fmt.Fprintf(os.Stderr, "case %v %s\n", time.Since(t0), line[:20]) }()
-	}
 	c := c05parse(line)
 	if c == nil {
 		return "bad-op", "-"
@@ -451,7 +445,19 @@ func c05run(line string) (impl, verdict string) {
 	work := filepath.Join(c05root, "work")
 	os.RemoveAll(work)
 	os.MkdirAll(work, 0o755)
+	need := map[int]bool{0: true}
+	for _, w := range c.workers {
+		if w.kind == 'r' && w.target >= 0 {
+			need[w.target] = true
+		}
+		if w.kind == 'p' {
+			need[w.pPath] = true
+		}
+	}
 	for p := 0; p < c05NGen; p++ {
+		if !need[p] {
+			continue
+		}
 		if c.backend == "cdb" {
 			c05copyFile(c05master("cdb", p), c05work("cdb", p))
 		} else {
@@ -559,8 +565,6 @@ func c05run(line string) (impl, verdict string) {
 		}
 		return true
 	}
-	servedGenBefore := func() int { return diskGen[0] } // placeholder, replaced below
-	_ = servedGenBefore
 	instGen := 0    // content of the served instance (harness bookkeeping for the oracle only)
 	instPath := 0   // path of the served instance
 	noopViol := ""  // failed-reload-noop violations seen on the handler itself
@@ -625,8 +629,9 @@ func c05run(line string) (impl, verdict string) {
 				busy = i
 			}
 			if from == "reload.locked" {
-				if w.timeout {
-					time.Sleep(150 * time.Millisecond) // let the abandoned reload goroutine finish
+				if w.timeout && w.sameInst {
+					// the abandoned goroutine is still inside CatchWithPrimary on the served instance
+					time.Sleep(300 * time.Millisecond)
 				}
 			}
 			if w.done {
@@ -1050,7 +1055,7 @@ func c05gen(g *gen, tier string, w *bufio.Writer) {
 	}
 	// 2. two queries × two reloads on CDB: random complete interleavings
 	n2 := 250
-	nr := map[string]int{"cdb": 500, "rdb": 220}
+	nr := map[string]int{"cdb": 500, "rdb": 250}
 	if thorough {
 		n2 = 5000
 		nr = map[string]int{"cdb": 10000, "rdb": 4000}
@@ -1094,13 +1099,18 @@ func c05gen(g *gen, tier string, w *bufio.Writer) {
 
 // witnesses of the two known findings (not generated in the normal tiers)
 var c05witnesses = []string{
-	// query parked after FindLocation/zone cut, content published at the served path, partial reload
-	// catches the served RocksDB instance up, query continues: answer from 1, location from 0
-	"sched rdb q:www.ex.com/A/10.1.2.3;p:0:1;r:partial 0;0;0;1;2;2;2;2;2;0;0;0;0",
-	// the same with NS (answer) and glue (additional) on either side of the catch-up
+	// query parked after FindLocation, content published at the served path, a partial reload catches
+	// the served RocksDB instance up, the query continues: ECS scope from 0, answer from 1
+	"sched rdb q:www.ex.com/A/10.1.2.3;p:0:1;r:partial 0;0;1;2;2;2;2;2;0;0;0;0;0",
+	// NS from 0 (fetched with the zone cut), glue in the additional section from 1
 	"sched rdb q:ex.com/NS/10.1.2.3;p:0:1;r:partial 0;0;0;0;1;2;2;2;2;2;0;0;0",
+	// delegation: NS of the child from 0, glue from 1; the reload is a FULL reload naming the served path
+	"sched rdb q:a.sub.ex.com/A/10.1.2.3;p:0:1;r:full:0 0;0;0;0;1;2;2;2;2;2;0;0;0",
 	// partial reload fails (validation key missing in generation 4) but the server now serves 4
 	"sched rdb p:0:4;r:partial;q:www.ex.com/TXT/10.1.2.3 0;1;1;1;2;2;2;2;2;2;2",
-	// the same on CDB is a no-op (for comparison; passes)
+	// partial reload times out; the abandoned goroutine completes the catch-up: the server serves 1
+	"sched rdb p:0:1;r:partial-timeout;q:www.ex.com/TXT/10.1.2.3 0;1;1;1;2;2;2;2;2;2;2",
+	// the same two on CDB are no-ops (for comparison; they pass)
 	"sched cdb p:0:4;r:partial;q:www.ex.com/TXT/10.1.2.3 0;1;1;1;2;2;2;2;2;2;2",
+	"sched cdb p:0:1;r:partial-timeout;q:www.ex.com/TXT/10.1.2.3 0;1;1;1;2;2;2;2;2;2;2",
 }
